@@ -385,6 +385,7 @@ type EncOpts struct {
 	Duplicates  bool       // precede singular scalars with an overwritten occurrence; split singular messages in two
 	MapShapes   bool       // map entries value-first, or with zero key / zero value omitted
 	Unknown     bool       // interleave unknown fields
+	LongKeys    bool       // encode some keys in one byte more than necessary
 	Split       *bool      // set when a singular message field was actually split over two occurrences
 }
 
@@ -412,6 +413,17 @@ func appendScalar(b []byte, k string, a AV) []byte {
 		return protowire.AppendFixed64(b, le64(a.S))
 	}
 	return protowire.AppendBytes(b, tr.ToBytes(a.S))
+}
+
+// tag writes a field key; with LongKeys now and then in one byte more than necessary (well-formed, never produced by encoders)
+func (o EncOpts) tag(b []byte, n protowire.Number, t protowire.Type) []byte {
+	start := len(b)
+	b = protowire.AppendTag(b, n, t)
+	if o.LongKeys && o.R != nil && o.R.Intn(4) == 0 && len(b)-start < 5 {
+		b[len(b)-1] |= 0x80
+		b = append(b, 0x00)
+	}
+	return b
 }
 
 func packableKind(k string) bool { return k != "string" && k != "bytes" && k != "message" }
@@ -503,30 +515,30 @@ func (s Schema) Encode(t string, m AM, o EncOpts) []byte {
 			for _, e := range af.KV {
 				var kb, vb []byte
 				if !(coin(o.MapShapes) && isZeroAV(fd.Mk, e.K)) {
-					kb = protowire.AppendTag(nil, 1, wtOfKind(fd.Mk))
+					kb = o.tag(nil, 1, wtOfKind(fd.Mk))
 					kb = appendScalar(kb, fd.Mk, e.K)
 				}
 				if fd.Mv == "message" {
 					sub := s.Encode(fd.Mt, e.V.M[0], o)
 					if !(coin(o.MapShapes) && len(sub) == 0) {
-						vb = protowire.AppendTag(nil, 2, protowire.BytesType)
+						vb = o.tag(nil, 2, protowire.BytesType)
 						vb = protowire.AppendBytes(vb, sub)
 					}
 				} else if !(coin(o.MapShapes) && isZeroAV(fd.Mv, e.V)) {
-					vb = protowire.AppendTag(nil, 2, wtOfKind(fd.Mv))
+					vb = o.tag(nil, 2, wtOfKind(fd.Mv))
 					vb = appendScalar(vb, fd.Mv, e.V)
 				}
 				entry := append(append([]byte{}, kb...), vb...)
 				if coin(o.MapShapes) {
 					entry = append(append([]byte{}, vb...), kb...)
 				}
-				c := protowire.AppendTag(nil, num, protowire.BytesType)
+				c := o.tag(nil, num, protowire.BytesType)
 				chunks = append(chunks, protowire.AppendBytes(c, entry))
 			}
 		case "rep":
 			if fd.K == "message" {
 				for _, e := range af.L {
-					c := protowire.AppendTag(nil, num, protowire.BytesType)
+					c := o.tag(nil, num, protowire.BytesType)
 					chunks = append(chunks, protowire.AppendBytes(c, s.Encode(fd.T, e.M[0], o)))
 				}
 				continue
@@ -537,7 +549,7 @@ func (s Schema) Encode(t string, m AM, o EncOpts) []byte {
 			}
 			if !packed || !packableKind(fd.K) {
 				for _, e := range af.L {
-					c := protowire.AppendTag(nil, num, wtOfKind(fd.K))
+					c := o.tag(nil, num, wtOfKind(fd.K))
 					chunks = append(chunks, appendScalar(c, fd.K, e))
 				}
 				continue
@@ -555,7 +567,7 @@ func (s Schema) Encode(t string, m AM, o EncOpts) []byte {
 				for _, e := range part {
 					body = appendScalar(body, fd.K, e)
 				}
-				c := protowire.AppendTag(nil, num, protowire.BytesType)
+				c := o.tag(nil, num, protowire.BytesType)
 				chunks = append(chunks, protowire.AppendBytes(c, body))
 			}
 		default:
@@ -578,25 +590,25 @@ func (s Schema) Encode(t string, m AM, o EncOpts) []byte {
 					// the later half wins, which is what merge does as well
 					b2.U = sub.U
 					for _, part := range []AM{a, b2} {
-						c := protowire.AppendTag(nil, num, protowire.BytesType)
+						c := o.tag(nil, num, protowire.BytesType)
 						chunks = append(chunks, protowire.AppendBytes(c, s.Encode(fd.T, part, o)))
 					}
 					continue
 				}
-				c := protowire.AppendTag(nil, num, protowire.BytesType)
+				c := o.tag(nil, num, protowire.BytesType)
 				chunks = append(chunks, protowire.AppendBytes(c, s.Encode(fd.T, sub, o)))
 				continue
 			}
 			if coin(o.Duplicates) && fd.O == "" {
-				c := protowire.AppendTag(nil, num, wtOfKind(fd.K))
+				c := o.tag(nil, num, wtOfKind(fd.K))
 				chunks = append(chunks, appendScalar(c, fd.K, rndScalar(r, fd.K, true)))
 				// keep this occurrence before the real one even when permuting: glue them together
-				c2 := protowire.AppendTag(nil, num, wtOfKind(fd.K))
+				c2 := o.tag(nil, num, wtOfKind(fd.K))
 				c2 = appendScalar(c2, fd.K, af.V)
 				chunks[len(chunks)-1] = append(chunks[len(chunks)-1], c2...)
 				continue
 			}
-			c := protowire.AppendTag(nil, num, wtOfKind(fd.K))
+			c := o.tag(nil, num, wtOfKind(fd.K))
 			chunks = append(chunks, appendScalar(c, fd.K, af.V))
 		}
 	}
